@@ -199,7 +199,9 @@ func pathAlphabet() []string {
 	rec = func(cur []string) {
 		if len(cur) > 0 {
 			p := strings.Join(cur, "/")
-			out = append(out, p, "/"+p)
+			// absolute paths point into the sandbox (resolved when the sandbox exists), next to
+			// the output directory: a write there is seen by the snapshot and litters nothing
+			out = append(out, p, "@SANDBOX@/abs/"+p)
 		}
 		if len(cur) == 3 {
 			return
@@ -232,6 +234,14 @@ func cases(quick bool) []caseT {
 		// the reference rule: a path is acceptable iff, joined to the output dir, it stays inside it and names a file
 		c.WantFail = false // decided at run time from the product's answer; confinement is judged either way
 		c.Sentinels = i%2 == 0
+		out = append(out, c)
+	}
+	// 1b. absolute paths without any dot segment: next to the output directory, inside a
+	// sibling whose name starts like it, and the output directory's own absolute path
+	for _, ap := range []string{"@SANDBOX@/escape/evil.go", "@SANDBOX@/work/outside.go", "@SANDBOX@/work/out2/evil.go", "@SANDBOX@/work/out/inside.go", "@SANDBOX@/work/thrift/svc/a.thrift"} {
+		c := base("absolute path " + ap)
+		c.Plugins = []plugSpec{ok("p1", map[string]string{ap: "payload", "p1/ok.txt": "x"})}
+		c.Hostile, c.Sentinels = true, true
 		out = append(out, c)
 	}
 	// 2. conflicts
@@ -349,6 +359,15 @@ func cases(quick bool) []caseT {
 type runner struct {
 	w   *ev.W
 	dir string
+}
+
+// resolved replaces the @SANDBOX@ token in plugin file paths by the sandbox root.
+func resolved(files map[string]string, root string) map[string]string {
+	out := make(map[string]string, len(files))
+	for p, c := range files {
+		out[strings.ReplaceAll(p, "@SANDBOX@", root)] = c
+	}
+	return out
 }
 
 func (r *runner) sandbox(c caseT) (root, thriftDir, outDir string) {
@@ -482,7 +501,7 @@ func (r *runner) inProcess(c caseT) {
 		}
 		var multi verifhook.PluginMultiHandle
 		for _, ps := range c.Plugins {
-			mp := &memPlugin{name: ps.Name, hsName: ps.HsName, ver: int32(api.APIVersion) + ps.Ver, files: ps.Files, genFault: ps.GenFault}
+			mp := &memPlugin{name: ps.Name, hsName: ps.HsName, ver: int32(api.APIVersion) + ps.Ver, files: resolved(ps.Files, root), genFault: ps.GenFault}
 			h, err := verifhook.NewTransportHandle(ps.Name, mp)
 			if err != nil {
 				runErr = err
@@ -515,7 +534,7 @@ func (r *runner) process(c caseT, thriftrw, pluginbin string) {
 	os.MkdirAll(logs, 0o755)
 	args := []string{"--out", outDir, "--pkg-prefix", "x/y", "--no-version-check", "--thrift-root", filepath.Join(thriftDir, c.ThriftRoot)}
 	for _, ps := range c.Plugins {
-		sc := map[string]interface{}{"api_version": int32(api.APIVersion) + ps.Ver, "handshake": map[string]interface{}{"fault": "ok"}, "generate": map[string]interface{}{"fault": "ok"}, "goodbye": map[string]interface{}{"fault": "ok"}, "files": ps.Files}
+		sc := map[string]interface{}{"api_version": int32(api.APIVersion) + ps.Ver, "handshake": map[string]interface{}{"fault": "ok"}, "generate": map[string]interface{}{"fault": "ok"}, "goodbye": map[string]interface{}{"fault": "ok"}, "files": resolved(ps.Files, root)}
 		if ps.HsName != ps.Name {
 			sc["handshake"] = map[string]interface{}{"fault": "wrong-name"}
 		}
